@@ -26,7 +26,8 @@ post-emit logs: (D) steps that log before AND after out.emit*() through out.clie
                 ctx.emit_client_log / out.emit_client_log_message (harness/c08_ext.py), producer and exchange, pipe and
                 HTTP, inline vs externalised route (in-memory storage, threshold 0): same messages, once, in order
                 (key logs-after-data-batch-dropped-on-externalised-route).  Not modelled in Coq (M_Wire steps log before
-                the emit); oracle only.  HTTP exchange on the inline route is excluded (see part D comment).
+                the emit); oracle only.  HTTP exchange on the inline route loses the logs emitted after the data batch: finding
+                key http-exchange-logs-after-data-batch-dropped, probed on every run.
 oracle        : the property's own predicate on what the real code did: nothing but RpcError escapes a call whatever
                 the peer sent, a known-level message is delivered with its members; delivered logs are an initial
                 segment of the emitted ones (once, in order, level/text/extras equal), every returned data item is
@@ -652,9 +653,10 @@ def run(ctx: Any) -> None:
     # ExternalLocationConfig (threshold 0) the whole collector is uploaded as one IPC stream and replaced by a pointer batch;
     # the client dispatches the logs of the fetched stream.  Oracle as everywhere (every message once, in order), plus: the
     # externalised route delivers the same messages as the inline route.  No EXCEPTION-level logs (C30 owns
-    # exception-log-after-data-drops-the-externalised-batch).  Excluded with a note: HTTP exchange on the INLINE route -- the
-    # unchanged client reads an exchange response only up to its data batch, so ordinary logs emitted after out.emit() are
-    # not delivered there (reported to the coordinator; candidate key http-exchange-logs-after-data-batch-dropped).
+    # exception-log-after-data-drops-the-externalised-batch).  HTTP exchange on the INLINE route is probed on every run (the
+    # first program is fixed): the client reads an exchange response only up to its data batch, so ordinary logs emitted
+    # after out.emit() are not delivered there -- finding key http-exchange-logs-after-data-batch-dropped (same root cause
+    # as C30's http-exchange-batches-after-the-data-batch-reach-the-client-only-when-externalised).
     from harness import c08_ext as X
 
     t0 = time.time()
@@ -700,9 +702,21 @@ def run(ctx: Any) -> None:
                     if not extern and up:
                         ctx.violation("inline-route-uploaded", "a server without external storage uploaded a batch", repl)
                     if tkind == "http" and method == "exch" and not extern:
-                        lost = len([e for e in E if e[0] == "log"]) - len([e for e in T if e[0] == "log"])
-                        ctx.tally("D.excluded", f"http-exchange-inline (logs after the data batch not read: {'lost' if lost else 'none lost'})")
-                        continue
+                        # known cause: HttpStreamSession.exchange reads a response only up to its data batch.  Exactly that
+                        # shape -- every batch returned, no error, the delivered logs are the emitted ones minus the logs
+                        # emitted AFTER out.emit() -- carries the listed key; anything else goes through the ordinary oracle.
+                        pre_only = [["log", l[0], l[1], dict(l[2])] for st in xp["steps"] for l in st["pre"]]
+                        n_post = sum(len(st["post"]) for st in xp["steps"])
+                        got_logs = [e for e in T if e[0] == "log"]
+                        clean = not any(e[0] in ("client_exc", "blocked", "error") for e in T) and [e for e in T if e[0] == "batch"] == [e for e in E if e[0] == "batch"]
+                        if clean and n_post and got_logs == pre_only:
+                            ctx.tally("D.http-exchange-inline", "post-emit logs dropped")
+                            ctx.violation("http-exchange-logs-after-data-batch-dropped",
+                                          "HTTP exchange, inline route: non-EXCEPTION client logs emitted after out.emit() in the same process() call never reach on_log "
+                                          "(the client reads an exchange response only up to its data batch); pipe, HTTP producer and the externalised route deliver them",
+                                          {**repl, "logs_not_delivered": [["log", l[0], l[1], dict(l[2])] for st in xp["steps"] for l in st["post"]]})
+                            continue
+                        ctx.tally("D.http-exchange-inline", "delivered" if clean and got_logs == [e for e in E if e[0] == "log"] else "other")
                     bad_ev = next((e for e in T if e[0] in ("client_exc", "blocked", "error")), None)
                     if bad_ev is not None:
                         ctx.violation(f"logs-around-data-batch-{route}:{bad_ev[0]}", f"the call produced {bad_ev}", repl)
@@ -743,5 +757,4 @@ def run(ctx: Any) -> None:
         "the interpreter service's log helper is replaced in-process by one that assigns Message.extra (extras named level/message/self cannot be passed as keyword arguments)",
         "FIFO byte channels and identity wrappers as in C01; the in-process Falcon app stands for HTTP",
         "part D: external storage is the in-memory dict of harness.interp with vgi_rpc.external.fetch_url redirected to it; tenacity is a stub; logs after out.emit() are checked by the oracle only (not in M_Wire)",
-        "part D excludes HTTP exchange on the inline route: the unchanged client reads an exchange response only up to its data batch (logs emitted after out.emit() are not delivered there)",
     ]
